@@ -192,8 +192,18 @@ def check_scan(P, ctx):
             g.must_pass(n['id'], [cat[0][0]['id']]) if cat else False
         # position advanced by the count once before the next specification
         adds = [x for x in g.live() if x['kind'] == 'stmt' and x['expr'] is not None and N.canon(x['expr']) == ('assign', '+=', ('param', 1), ('local', offv[1]))]
-        after = [x for x in adds if x['id'] in g.reach_from(n['id']) and g.must_pass(x['id'], [n['id']])]
-        good = good and len(after) == 1
+        # between this read and the next round of the scanning loop (or the return) the count is added exactly once on every path
+        # (the addition may be shared by several reads that join before it)
+        loop = g.innermost_loop_of(n['id']) or set()
+        heads = [i for i in loop if g.nodes[i]['kind'] == 'join' and g.nodes[i].get('loop')]
+        ends = heads + [g.exit]
+        addids = [x['id'] for x in adds]
+        once = not any(e in g.reach_from(n['succ'][0][0], cut_nodes=addids) for e in ends) if n['succ'] else False
+        for a in adds:
+            if a['id'] in g.reach_from(n['id'], cut_nodes=heads) and a['succ']:
+                if any(b in g.reach_from(a['succ'][0][0], cut_nodes=heads) for b in addids):
+                    once = False
+        good = good and once
         nb += 1
         ctx.check(good, rule, 'format_from#%d@%s' % (nb, ir.fmt(N.canon(c[2][3]))[:20]), site(fn, n['line']),
                   'a conversion is read with the copied specification plus %n, the consumed-character count lands in the counter and is added to the position once')
